@@ -11,7 +11,7 @@ ROOT="$(cd "$(dirname "$0")" && pwd)"
 export VERIF_ROOT="$ROOT"
 export GOFLAGS=-mod=mod GOPROXY=off GOSUMDB=off GOTOOLCHAIN=local GONOSUMDB=* GONOSUMCHECK=1 GOFLAGS=-mod=mod
 REPO="${VERIF_REPO:-/repo}"
-BIN="$ROOT/bin"
+BIN="${VERIF_BIN:-$ROOT/bin}"
 mkdir -p "$BIN"
 
 build() { # $1 = race|plain
